@@ -491,6 +491,12 @@ func (b *stepBuilder) buildStep(
 		}
 	}
 
+	// The step must end up with something to execute.
+	if step.Command == "" && step.CmdWithArgs == "" &&
+		step.ExecutorConfig.Type == "" && step.SubWorkflow == nil {
+		return nil, errStepCommandIsEmpty
+	}
+
 	return step, nil
 }
 
